@@ -631,7 +631,7 @@ def nontrivial(c):
 
 def main(run, args):
     import checklib
-    n = 3600 if run.tier == "quick" else 60000
+    n = 3600 if run.tier == "quick" else 45000
     if args.cases:
         n = args.cases
     return checklib.standard(run, ID, THEOREMS, IMPORTS, "strfn", gen_cases, to_coq, n, nontrivial=nontrivial,
